@@ -4,6 +4,8 @@ import (
 	"bytes"
 	"context"
 	"fmt"
+	"go/constant"
+	"go/types"
 	"os"
 	"os/exec"
 	"path/filepath"
@@ -21,6 +23,10 @@ func Preamble(m Mode) string {
 	b.WriteString("(declare-datatypes ((Iface 0)) (((mkif (if.dyn Int) (if.val Ptr)))))\n")
 	b.WriteString("(declare-sort Str 0)\n(define-sort Func () Int)\n(define-sort GInt () Int)\n(define-sort GOwn () Int)\n")
 	fmt.Fprintf(&b, "(declare-fun slen (Str) %s)\n(declare-fun sat (Str %s) %s)\n(declare-fun sconcat (Str Str) Str)\n", ix, ix, ix)
+	if !m.BV {
+		b.WriteString("(assert (forall ((a Str) (b Str)) (! (= (slen (sconcat a b)) (+ (slen a) (slen b))) :pattern ((sconcat a b)))))\n")
+		b.WriteString("(assert (forall ((a Str)) (! (>= (slen a) 0) :pattern ((slen a)))))\n")
+	}
 	b.WriteString("(define-fun tdiv ((a Int) (b Int)) Int (ite (>= a 0) (div a b) (- (div (- a) b))))\n")
 	b.WriteString("(define-fun tmod ((a Int) (b Int)) Int (- a (* b (tdiv a b))))\n")
 	for _, f := range []string{"band_int", "bor_int", "bxor_int", "bandnot_int"} {
@@ -375,6 +381,29 @@ func Retry(rs []*FuncResult, dir string, timeout time.Duration, stats *SolveStat
 
 
 // LemmaObligations returns one pseudo-function per mode holding the lemma obligations of property prop.
+// StringSeparationLemma: no domain tag makes the signature ciphersuite key equal to the proof-of-possession one
+// (the two constants are read from the type-checked package).
+func StringSeparationLemma(P *Program) *Lemma {
+	sp := P.SPkgs[ModPath]
+	if sp == nil {
+		return nil
+	}
+	get := func(n string) (string, bool) {
+		c, ok := sp.Pkg.Scope().Lookup(n).(*types.Const)
+		if !ok {
+			return "", false
+		}
+		return constant.StringVal(c.Val()), true
+	}
+	sig, ok1 := get("blsSigCipherSuite")
+	pop, ok2 := get("blsPOPCipherSuite")
+	if !ok1 || !ok2 {
+		return nil
+	}
+	return &Lemma{Name: "no-tag-maps-the-signature-suite-onto-the-pop-suite", Props: []string{"C16"}, NoAssert: true,
+		SMT: fmt.Sprintf("(forall ((t String)) (not (= (str.++ t %q) %q)))", sig, pop)}
+}
+
 func LemmaObligations(prop string) []*FuncResult {
 	var out []*FuncResult
 	for _, bv := range []bool{false, true} {
